@@ -1,4 +1,4 @@
-import StorageModel.C06.Recreate
+import StorageModel.C06.Fuel
 /-
   C06 — A committed delete leaves no trace of the entity's id.
 
@@ -83,6 +83,13 @@ theorem boss_cascade_no_trace {s s' : State} {id j : Id} (hi : C06.Inv s) (h : s
   have hraw : deleteATop s id = .ok s' := stepRaw_of_step_ok h
   have hgone := boss_cascade_removes hi hraw hr
   exact ⟨hgone, no_trace_of_absent (inv_deleteA hi hraw) hc hgone hb⟩
+
+/-- **The cascade terminates.**  The model bounds the recursion of the cascading delete by a fuel of
+    (number of A entities + 1) and answers `panic` when it runs out (the stack overflow of the code
+    before fix bda5470).  In every consistent state a delete never does — on chains, self references
+    and reference cycles alike: every nested delete marks one more existing entity as in progress. -/
+theorem delete_terminates {s : State} (id : Id) (hi : C06.Inv s) : stepRaw s (.deleteA id) ≠ .error .panic :=
+  deleteATop_noPanic id hi.toInvCore hi.boss
 
 /-- **Whatever a committed transaction removed** — by a direct delete, through a child store, or by
     any cascade, anywhere in the transaction — is mentioned by no line of the dump afterwards. -/
@@ -183,6 +190,13 @@ theorem recreate_as_if_never_existed {s s' t : State} {id : Id} (v : ValsA) (hi 
   have : (∃ t'', createA t id v = .ok t'') ↔ AcceptableA t id v :=
     createA_accepts_iff ht hid (by rw [ha]; exact hna)
   exact ((acceptableA_congr ha hb).symm.trans this.symm)
+
+/-- **Re-creation of anything that is gone** (deleted directly, through a child store, or as the
+    victim of a cascade): in every consistent state the create of an absent id is accepted iff
+    `AcceptableA` — a condition on the other entities — holds; nothing of the id's past matters. -/
+theorem recreate_absent_accepted_iff {s : State} {id : Id} (v : ValsA) (hi : C06.Inv s) (hid : id ≠ [])
+    (hna : s.a.lookup id = none) : (∃ s', stepRaw s (.createA id v) = .ok s') ↔ AcceptableA s id v :=
+  createA_accepts_iff hi hid hna
 
 /-- the non-nullable unique index of the *parent* store refuses an empty value also when the
     create comes through the child store (the parent's indexing context is a create context) -/
@@ -302,5 +316,6 @@ end StorageModel.Properties.C06
 #print axioms StorageModel.Properties.C06.cascade_no_trace
 #print axioms StorageModel.Properties.C06.boss_cascade_no_trace
 #print axioms StorageModel.Properties.C06.tx_removed_no_trace
+#print axioms StorageModel.Properties.C06.delete_terminates
 #print axioms StorageModel.Properties.C06.recreate_fresh
 #print axioms StorageModel.Properties.C06.recreate_as_if_never_existed
